@@ -54,6 +54,7 @@ type Ctl struct {
 	gated    map[string]bool // labels that stop at gates
 	multi    map[string]bool
 	parkedAt map[string][]chan struct{}
+	plain    map[string]string        // label -> SQL fragment of the plain (non-transaction) query to park at
 	parked   map[string]chan struct{} // label -> release channel
 	where    map[string]string
 	txToken  chan struct{} // serialises transactions
@@ -291,7 +292,26 @@ func (v *vconn) ExecContext(ctx context.Context, q string, args []driver.NamedVa
 	return v.SQLiteConn.ExecContext(ctx, q, args)
 }
 
+// GatePlain: while the label is gated with GateMulti, a query outside a transaction whose text contains
+// frag parks at "plain-query" before it is executed
+func (c *Ctl) GatePlain(label, frag string) {
+	c.mu.Lock()
+	if c.plain == nil {
+		c.plain = map[string]string{}
+	}
+	c.plain[label] = frag
+	c.mu.Unlock()
+}
+
 func (v *vconn) QueryContext(ctx context.Context, q string, args []driver.NamedValue) (driver.Rows, error) {
+	if l := labelOf(ctx); l != "" {
+		v.c.mu.Lock()
+		frag, on := v.c.plain[l], v.c.multi[l]
+		v.c.mu.Unlock()
+		if on && frag != "" && strings.Contains(q, frag) {
+			v.c.park(ctx, "plain-query")
+		}
+	}
 	st, err := v.c.hit(ctx, "query", q, args)
 	if err != nil {
 		return nil, err
